@@ -11,6 +11,7 @@ GEN = {
     'C10': [('Gen_C10', 'props.t_C10')],
     'C11': [('Gen_C11', 'props.t_C11')],
     'C12': [('Gen_C12', 'props.t_C12')],
+    'C17': [('Gen_C17', 'props.t_C17')],
     'C19': [('Gen_C19', 'props.t_C19')],
 }
 
@@ -18,9 +19,13 @@ GEN = {
 # property id -> 'module:function' returning (ok, info); called with no arguments
 CUSTOM = {
     'C07': 'props.t_C07:generate_for_make',
+    'C18': 'props.t_C18:setup_generate',
+    'C20': 'props.t_C20:setup_generate',
 }
 
-PROPS = sorted(set(GEN) | set(CUSTOM))
+NOGEN = ['C13', 'C14', 'C16']        # hand-model only
+
+PROPS = sorted(set(GEN) | set(CUSTOM) | set(NOGEN))
 
 
 def run_custom(pid):
